@@ -481,6 +481,15 @@ _ARO_TEMPLATES = (
     ([("N", 1, 0)] + [_C] * 8, _INDO_BONDS, _INDO_DBL),                               # indole
     ([("O", 0, 0)] + [_C] * 8, _INDO_BONDS, _INDO_DBL),                               # benzofuran
     ([("S", 0, 0)] + [_C] * 8, _INDO_BONDS, _INDO_DBL),                               # benzothiophene
+    ([("O", 0, 1)] + [_C] * 5, _ring(6), [(0, 1), (2, 3), (4, 5)]),                   # pyrylium [o+]
+    ([("S", 0, 1)] + [_C] * 5, _ring(6), [(0, 1), (2, 3), (4, 5)]),                   # thiopyrylium [s+]
+    ([("N", 0, -1)] + [_C] * 4, _ring(5), [(1, 2), (3, 4)]),                          # pyrrolide [n-]
+    ([("C", 1, -1)] + [_C] * 4, _ring(5), [(1, 2), (3, 4)]),                          # cyclopentadienide [cH-]
+    ([("S", 0, 0), _C, ("N", 0, 0), _C, _C], _ring(5), [(1, 2), (3, 4)]),             # thiazole
+    ([("O", 0, 0), _C, ("N", 0, 0), _C, _C], _ring(5), [(1, 2), (3, 4)]),             # oxazole
+    ([("P", 0, 0)] + [_C] * 5, _ring(6), [(0, 1), (2, 3), (4, 5)]),                   # phosphinine
+    ([("Te", 0, 0)] + [_C] * 4, _ring(5), [(1, 2), (3, 4)]),                          # tellurophene
+    ([("N", 0, -1)] + [_C] * 8, _INDO_BONDS, _INDO_DBL),                              # indolide
 )
 
 
@@ -507,7 +516,7 @@ def gen_aromatic_mol(rng, tables):
         deg[b] += 1
     for i in range(len(atoms)):
         a = mol.atoms[i]
-        if a["el"] != "C" or deg[i] != 2 or rng.random() < 0.5:
+        if a["el"] != "C" or a["ch"] or a["h"] or deg[i] != 2 or rng.random() < 0.5:
             continue
         # one single-bonded substituent: the ring carbon lands at 4; with boundary bias the
         # *substituent* is tuned instead (its own capacity - 1 / 0 / + 1)
